@@ -834,6 +834,11 @@ where
         let bytes_to_write = core::cmp::min(buffer.len(), bytes_until_max);
         let mut written = 0;
 
+        // Stamp the entry now: if the volume fills up part-way through, what
+        // has been stored by then is still a modification made at this time.
+        data.open_files[file_idx].entry.attributes.set_archive(true);
+        data.open_files[file_idx].entry.mtime = self.time_source.get_timestamp();
+
         while written < bytes_to_write {
             let mut current_cluster = data.open_files[file_idx].current_cluster;
             debug!(
@@ -913,8 +918,6 @@ where
                 .unwrap();
             // Entry update deferred to file close, for performance.
         }
-        data.open_files[file_idx].entry.attributes.set_archive(true);
-        data.open_files[file_idx].entry.mtime = self.time_source.get_timestamp();
         if bytes_to_write < buffer.len() {
             // The rest of the buffer does not fit below the maximum file size:
             // report that, rather than claiming a complete write.
